@@ -60,3 +60,7 @@ def harness(cfg, ns):
 
 def replay(case):
     return pipeline.replay_pipeline(case)
+
+
+# translator validation (shared): the repository's own test inputs through both builds
+tv_cases, tv_real, tv_sym, tv_compare_hook = pipeline.tv_cases, pipeline.tv_real, pipeline.tv_sym, pipeline.tv_compare_hook
